@@ -46,6 +46,7 @@ AVOID_DOC = {
 PREAMBLE = [
     "var n = 0;",
     "function defer(){ var d = {}; d.p = new Promise(function(a, b){ d.res = a; d.rej = b; }); return d; }",
+    "function thrower(v){ throw v; }",
 ]
 FINAL = "'fin:' + n"
 
@@ -107,6 +108,8 @@ class Gen:
         self.afuncs = []   # call templates of async functions: "af3(%s)"
         self.agens = []    # call templates of async generator functions
         self.gobjs = []    # async generator objects
+        self.pclasses = []  # Promise subclasses
+        self.labeln = 0
         self.fuel = 0
         self.cur_ystar = False
         self.feat = {}
@@ -327,14 +330,20 @@ class Gen:
         self.use("then_passthrough")
         return r.choice([".then()", ".then(1, 2)", ".catch()", ".finally()"])
 
+    def ctor(self):
+        if self.pclasses and self.r.chance(0.3):
+            self.use("subclass_use")
+            return self.r.choice(self.pclasses)
+        return "Promise"
+
     def leaf_promise(self, c):
         r = self.r
         k = r.below(100)
         if k < 35:
-            return "Promise.resolve(%s)" % self.val(c)
+            return "%s.resolve(%s)" % (self.ctor(), self.val(c))
         if k < 55:
             self.use("reject")
-            return "Promise.reject(%s)" % self.val(c)
+            return "%s.reject(%s)" % (self.ctor(), self.val(c))
         if k < 78 and self.proms:
             return r.choice(self.proms)
         if self.defs:
@@ -416,7 +425,7 @@ class Gen:
             body.append("Promise.resolve().then(function(){ %s %s(%s); });" % (pr(self.tag(j)), r.choice(["res", "res", "rej"]), self.val(j)))
         else:
             self.use("never_settles")
-        return "new Promise(function(res, rej){ %s })" % " ".join(body)
+        return "new %s(function(res, rej){ %s })" % (self.ctor(), " ".join(body))
 
     def combinator(self, c):
         r = self.r
@@ -443,7 +452,7 @@ class Gen:
             self.use("combinator_generator")
             i = c.inner(once=False)
             arr = "(function*(){ %s %s })()" % (pr(self.tag(i)), " ".join("yield %s;" % (("(" + e + ")") if e.startswith("{") else e) for e in els))
-        return "Promise.%s(%s)" % (name, arr)
+        return "%s.%s(%s)" % (self.ctor(), name, arr)
 
     def aiife(self, c):
         r = self.r
@@ -478,12 +487,23 @@ class Gen:
     def astmt(self, c):
         """-> (statement text, body certainly ends here)"""
         r = self.r
-        opts = [("print", 3), ("await", 9), ("try", 5), ("action", 4), ("if", 2)]
+        opts = [("print", 3), ("await", 8), ("awaitexpr", 4), ("try", 5), ("action", 4), ("if", 2)]
         if c.depth < 4:
             opts += [("forawait", 4), ("loop", 2), ("tryret", 2)]
         if c.is_gen:
-            opts += [("yield", 10), ("yieldstar", 3)]
+            opts += [("yield", 10), ("yieldstar", 3), ("yieldexpr", 3)]
         k = r.weighted(opts)
+        if k == "awaitexpr":
+            return self.await_expr(c), False
+        if k == "yieldexpr":
+            self.use("yield_in_expression")
+            ys = ["yield %s" % (self.awaitable_paren(c) if r.chance(0.4) else self.val(c)) for _ in range(r.range(2, 3))]
+            c.after = True
+            w = self.fresh("y")
+            c.locals.append(w)
+            form = r.choice(["[%s]", "{a: %s}", "[%s].length"])
+            inner = ", ".join("(%s)" % y for y in ys) if "a:" not in form else ", b: ".join("(%s)" % y for y in ys[:2])
+            return "var %s = %s; %s" % (w, form % inner, pr(self.tag(c), w)), False
         if k == "print":
             return pr(self.tag(c), *([r.choice(c.locals)] if c.locals and r.chance(0.5) else [])), False
         if k == "await":
@@ -569,7 +589,15 @@ class Gen:
                 body.append("if (%s === %s) %s" % (x, r.choice(["1", "2", "'a'", x]), ex))
             c.after = True
             decl = r.choice(["var", "let", "const"])
-            return "for await (%s %s of %s) { %s }" % (decl, x, it, " ".join(body)), False
+            loop = "for await (%s %s of %s) { %s }" % (decl, x, it, " ".join(body))
+            if r.chance(0.2):
+                self.use("labeled_for_await")
+                self.labeln += 1
+                L, j = "L%d" % self.labeln, self.fresh("j")
+                jump = r.choice(["continue %s;" % L, "break %s;" % L])
+                inner = "for await (%s %s of %s) { %s if (%s === %s) %s }" % (decl, x, it, " ".join(body), x, r.choice(["1", "2", "'a'", x]), jump)
+                loop = "%s: for (var %s = 0; %s < 2; %s++) { %s %s }" % (L, j, j, j, inner, pr(self.tag(b)))
+            return loop, False
         if k == "loop":
             self.use("await_in_loop")
             i = self.fresh("i")
@@ -597,6 +625,55 @@ class Gen:
         w = self.fresh("y")
         c.locals.append(w)
         return "var %s = yield* %s; %s" % (w, it, pr(self.tag(c), w)), False
+
+    def num_awaitable(self, c):
+        v = str(self.r.range(1, 6))
+        k = self.r.below(10)
+        if k < 4:
+            return v
+        if k < 8:
+            return "Promise.resolve(%s)" % v
+        self.use("thenable")
+        return "({then: function(res){ %s res(%s); }})" % (pr(self.tag(c.inner(after=True, once=False))), v)
+
+    def await_expr(self, c):
+        """awaits in expression positions: operands / elements evaluated before the suspension must survive it"""
+        r = self.r
+        self.use("await_in_expression")
+        A = lambda: "await %s" % self.awaitable_paren(c)
+        k = r.below(100)
+        w = self.fresh("w")
+        if k < 14:
+            e = "[%s, %s]" % (A(), A())
+        elif k < 26:
+            e = "{a: %s, b: %s}" % (A(), A())
+        elif k < 36:
+            e = "[n, %s, n, %s, n]" % (A(), A())
+        elif k < 46:
+            e = "`${%s}|${%s}`" % (A(), A())
+        elif k < 56:
+            e = "(%s) || (%s)" % (A(), A())
+        elif k < 64:
+            e = "(%s) ? (%s) : (%s)" % (A(), A(), A())
+        elif k < 72:
+            e = "await (%s)" % A()
+        elif k < 80:
+            e = "(function(p, q){ return [q, p]; })(%s, %s)" % (A(), A())
+        elif k < 90:
+            # compound assignment to a global: the left operand is read before the suspension
+            self.use("compound_assign_await")
+            c.after = True
+            op = r.choice(["+=", "-=", "*="])
+            return "n %s await %s; n = n %% 1000003; %s" % (op, self.num_awaitable(c), pr(self.tag(c), "n"))
+        else:
+            self.use("destructure_await")
+            w2 = self.fresh("w")
+            c.after = True
+            c.locals += [w, w2]
+            return "var [%s, %s] = await Promise.all([%s, %s]); %s" % (w, w2, self.awaitable(c), self.awaitable(c), pr(self.tag(c), w, w2))
+        c.after = True
+        c.locals.append(w)
+        return "var %s = %s; %s" % (w, e, pr(self.tag(c), w))
 
     def awaitable_paren(self, c):
         a = self.awaitable(c)
@@ -667,21 +744,36 @@ class Gen:
         c = Ctx(after=False, once=False, is_async=True, is_gen=gen, depth=1, locals=["a"])
         return " ".join(self.abody(c, self.r.range(2, 5)))
 
+    def params(self):
+        """parameter list of an async function (calls pass one argument)"""
+        r = self.r
+        if not r.chance(0.2):
+            return "a"
+        self.use("default_param")
+        x = Ctx(after=False, once=False)
+        k = r.below(10)
+        if k < 5:
+            return "a, b = (%s, 1)" % pr(self.tag(x))[:-1]
+        if k < 8:
+            self.use("default_param_throws")
+            return "a, b = thrower(%s)" % self.val(x)
+        return "a, b = a, {c} = {c: %s}" % pr(self.tag(x))[:-1]
+
     def top_afunc(self, top):
         r = self.r
         name = self.fresh("af")
         k = r.below(100)
         if k < 35:
             self.use("async_function_decl")
-            s = "async function %s(a){ %s }" % (name, self.afunc_body())
+            s = "async function %s(%s){ %s }" % (name, self.params(), self.afunc_body())
             tpl = [name + "(%s)"]
         elif k < 48:
             self.use("async_function_expr")
-            s = "var %s = async function(a){ %s };" % (name, self.afunc_body())
+            s = "var %s = async function(%s){ %s };" % (name, self.params(), self.afunc_body())
             tpl = [name + "(%s)"]
         elif k < 63:
             self.use("async_arrow")
-            s = "var %s = async (a) => { %s };" % (name, self.afunc_body())
+            s = "var %s = async (%s) => { %s };" % (name, self.params(), self.afunc_body())
             tpl = [name + "(%s)"]
         elif k < 70:
             self.use("async_arrow_expr")
@@ -690,7 +782,7 @@ class Gen:
         elif k < 85:
             self.use("async_method")
             o = self.fresh("o")
-            s = "var %s = { async m(a){ %s }, async k(a){ %s } };" % (o, self.afunc_body(), self.afunc_body())
+            s = "var %s = { async m(%s){ %s }, async k(a){ %s } };" % (o, self.params(), self.afunc_body(), self.afunc_body())
             tpl = [o + ".m(%s)", o + ".k(%s)"]
         else:
             self.use("async_class_method")
@@ -785,6 +877,31 @@ class Gen:
         self.proms.append(p)
         return s
 
+    def top_patch(self, top):
+        """an own `then` / `constructor` on a promise instance: prints where the spec looks them up"""
+        r = self.r
+        p = r.choice(self.proms)
+        x = Ctx(after=False, once=False)
+        if r.chance(0.5):
+            self.use("patched_then")
+            return "%s.then = function(a, b){ %s return Promise.prototype.then.call(this, a, b); };" % (p, pr(self.tag(x)))
+        self.use("constructor_getter")
+        ret = r.choice(["Promise", "Promise", "undefined"] + self.pclasses)
+        return "Object.defineProperty(%s, 'constructor', {get: function(){ %s return %s; }, configurable: true});" % (p, pr(self.tag(x)), ret)
+
+    def top_subclass(self, top):
+        r = self.r
+        self.use("promise_subclass")
+        name = self.fresh("P")
+        x = Ctx(after=False, once=False)
+        sp = ""
+        if r.chance(0.4):
+            self.use("species_getter")
+            sp = " static get [Symbol.species](){ %s return %s; }" % (pr(self.tag(x)), r.choice(["Promise", "this", "undefined"]))
+        s = "var %s = class extends Promise { constructor(ex){ %s super(ex); }%s };" % (name, pr(self.tag(x)), sp)
+        self.pclasses.append(name)
+        return s
+
     def top_selfres(self, top):
         self.use("self_resolution")
         p = self.fresh("p")
@@ -806,6 +923,10 @@ class Gen:
                     ("late", 1), ("selfres", 0.3), ("agen", 3 if len(self.agens) < 3 else 0.5)]
             if self.defs:
                 opts.append(("settle", 3))
+            if self.proms:
+                opts.append(("patch", 1))
+            if len(self.pclasses) < 2:
+                opts.append(("subclass", 1))
             if self.agens:
                 opts.append(("gobj", 3 if len(self.gobjs) < 3 else 1))
             if self.gobjs:
